@@ -22,6 +22,7 @@ func init() {
 	vhRegister("vh_C01_reverify", vh_C01_reverify)
 	vhRegister("vh_C06_expiry", vh_C06_expiry)
 	vhRegister("vh_C06_expiry_values", vh_C06_expiry_values)
+	vhRegister("vh_C06_clock", vh_C06_clock)
 	vhRegister("vh_C08_sublayouts", vh_C08_sublayouts)
 	vhRegister("vh_C08_authorized", vh_C08_authorized)
 	vhRegister("vh_C09_inspections", vh_C09_inspections)
@@ -162,7 +163,7 @@ func vhVerifySublayouts(layout Layout, md map[string]map[string]Metadata, linkPa
 		return VerifySublayouts(layout, md, linkPath, pems, lineNorm)
 	}
 	vhEvent("sublayouts")
-	vhProv(layout.Readme == vhLayoutTag && vhLayoutContentOK(layout) && vhHasTag(md, "verified") && linkPath == "LINKDIR-ARG" && len(pems) == 1 && lineNorm)
+	vhProv(layout.Readme == vhLayoutTag && vhLayoutContentOK(layout) && vhHasTag(md, "verified") && linkPath == "LINKDIR-ARG" && len(pems) == 1 && lineNorm == vhLineNormArg)
 	if vhFail("sublayouts") {
 		return nil, errors.New("vh: sublayouts")
 	}
@@ -228,13 +229,14 @@ func vhVerifyArtifacts(items []interface{}, md map[string]Metadata) error {
 
 var vhRunDirArg string
 var vhUseDSSEArg bool // the entry point passes true exactly when the layout came in a DSSE envelope
+var vhLineNormArg = true // the line-normalisation switch the harness handed to the entry point
 
 func vhRunInspections(layout Layout, runDir string, lineNorm bool, useDSSE bool) (map[string]Metadata, error) {
 	if !vStubOn("stages") {
 		return RunInspections(layout, runDir, lineNorm, useDSSE)
 	}
 	vhEvent("inspections")
-	vhProv(layout.Readme == vhLayoutTag && vhLayoutContentOK(layout) && runDir == vhRunDirArg && lineNorm && useDSSE == vhUseDSSEArg)
+	vhProv(layout.Readme == vhLayoutTag && vhLayoutContentOK(layout) && runDir == vhRunDirArg && lineNorm == vhLineNormArg && useDSSE == vhUseDSSEArg)
 	if vhFail("inspections") {
 		return nil, errors.New("vh: inspection failed")
 	}
@@ -375,12 +377,13 @@ func vhWiringRun(a []int) (stages []string, res Metadata, err error, sigOK bool)
 		}
 	}
 	vhStepNameArg = vConcStr(vPick("stepname", "", "STEPNAME-ARG"))
+	vhLineNormArg, vhUseDSSEArg = vBool("line-normalization"), false
 	if entry == 0 {
 		vhRunDirArg = ""
-		res, err = InTotoVerify(env, keys, "LINKDIR-ARG", vhStepNameArg, map[string]string{}, [][]byte{[]byte("PEM-ARG")}, true)
+		res, err = InTotoVerify(env, keys, "LINKDIR-ARG", vhStepNameArg, map[string]string{}, [][]byte{[]byte("PEM-ARG")}, vhLineNormArg)
 	} else {
 		vhRunDirArg = "RUNDIR-ARG"
-		res, err = InTotoVerifyWithDirectory(env, keys, "LINKDIR-ARG", "RUNDIR-ARG", vhStepNameArg, map[string]string{}, [][]byte{[]byte("PEM-ARG")}, true)
+		res, err = InTotoVerifyWithDirectory(env, keys, "LINKDIR-ARG", "RUNDIR-ARG", vhStepNameArg, map[string]string{}, [][]byte{[]byte("PEM-ARG")}, vhLineNormArg)
 	}
 	vObserve("verify", err == nil, len(vhEvents))
 	// stages seen, without the run directory probes
@@ -459,7 +462,7 @@ func vh_C01_reverify(a []int) {
 		keys[pk.KeyID] = pk
 	}
 	vhStepNameArg = ""
-	vhUseDSSEArg = wrapper == 2
+	vhUseDSSEArg, vhLineNormArg = wrapper == 2, true
 	for r := 0; r < rounds; r++ {
 		vhEvents, vhProvenanceOK, vhProvFailedAt = nil, true, ""
 		params := map[string]string{}
@@ -579,6 +582,15 @@ var vhParseLayout, vhParseValue string
 var vhParseCalls, vhUntilCalls int
 
 func vhTimeParse(layout, value string) (time.Time, error) {
+	if vStubOn("clock") {
+		// concrete clock (vh_C06_clock): the expiry string denotes the instant vhClockExpires
+		vhParseCalls++
+		vhParseLayout, vhParseValue = layout, value
+		if value != "EXPIRES" {
+			return time.Time{}, errors.New("vh: cannot parse time")
+		}
+		return vhClockExpires, nil
+	}
 	if !vStubOn("time") {
 		return time.Parse(layout, value)
 	}
@@ -605,12 +617,53 @@ func vhTimeParseInLocation(layout, value string, loc *time.Location) (time.Time,
 
 var vhRemaining int
 
+// concrete clock of vh_C06_clock: "now" and the instant the expiry string denotes
+var vhClockNow, vhClockExpires time.Time
+
+func vhTimeNow() time.Time {
+	if vStubOn("clock") {
+		return vhClockNow
+	}
+	return time.Now()
+}
+
+func vhTimeSince(t time.Time) time.Duration {
+	if vStubOn("clock") {
+		return vhClockNow.Sub(t)
+	}
+	return time.Since(t)
+}
+
 func vhTimeUntil(t time.Time) time.Duration {
+	if vStubOn("clock") {
+		return t.Sub(vhClockNow)
+	}
 	if !vStubOn("time") {
 		return time.Until(t)
 	}
 	vhUntilCalls++
 	return time.Duration(vhRemaining)
+}
+
+// vh_C06_clock: the time package itself is executed (concretely) against a fixed clock: "now" is
+// 2023-11-14T22:13:20.5Z and the expiry lies a chosen distance before or after it.  Whatever part of the
+// time API the code uses to compare the two (Until, Sub, Before/After, Unix seconds, truncation),
+// the verdict must be "not yet expired" exactly for distances >= 0.
+// a = {index of the distance}
+var vhClockDeltas = []int64{-1, -400000000, -499999999, -500000000, -500000001, -999999999, -1000000000, -1000000001, -1500000000,
+	-60000000000, -3600000000000, -86399000000000, -86400000000000, -90000000000000, -31536000000000000,
+	0, 1, 400000000, 499999999, 500000000, 999999999, 1000000000, 60000000000, 3600000000000, 86400000000000, 31536000000000000}
+
+func vh_C06_clock(a []int) {
+	vhParseCalls, vhParsedAsUTC = 0, true
+	d := vhClockDeltas[a[0]]
+	vhClockNow = time.Unix(1700000000, 500000000).UTC()
+	vhClockExpires = vhClockNow.Add(time.Duration(d))
+	exp := vPick("expires", "EXPIRES", "garbage")
+	err := VerifyLayoutExpiration(Layout{Expires: exp})
+	vObserve("clock", d, err == nil)
+	vAssert("C06.accepted-iff-the-expiry-parses-and-is-not-in-the-past-on-a-concrete-clock", (err == nil) == (exp == "EXPIRES" && d >= 0))
+	vReach("C06.end")
 }
 
 // vh_C06_expiry: VerifyLayoutExpiration accepts iff the expiry parses with the
@@ -806,7 +859,7 @@ func vhInTotoRun(name string, runDir string, materialPaths []string, productPath
 		keyZero: key.KeyID == "" && key.KeyVal.Public == "" && key.KeyVal.Private == "",
 		algOK:   len(hashAlgorithms) == 1 && hashAlgorithms[0] == "sha256",
 		noExcl:  len(gitignorePatterns) == 0 && len(lStripPaths) == 0,
-		flags:   lineNormalization && !followSymlinkDirs && !useDSSE}
+		flags:   lineNormalization == vhLineNormArg && !followSymlinkDirs && useDSSE == vhUseDSSEArg}
 	if len(cmdArgs) == 1 {
 		c.cmd = cmdArgs[0]
 	}
@@ -837,7 +890,10 @@ func vh_C09_inspections(a []int) {
 	if withDir == 1 {
 		runDir = "RUN"
 	}
-	out, err := RunInspections(layout, runDir, true, false)
+	// both switches are arbitrary, so that one passed in the other's place is told apart
+	vhLineNormArg, vhUseDSSEArg = vBool("line-normalization"), vBool("use-dsse")
+	defer func() { vhLineNormArg, vhUseDSSEArg = true, false }()
+	out, err := RunInspections(layout, runDir, vhLineNormArg, vhUseDSSEArg)
 	vObserve("inspections", err == nil, len(vhRunCalls))
 	// calls are a prefix of the layout's inspections, in order, with the right arguments
 	ok := len(vhRunCalls) <= n
